@@ -13,7 +13,7 @@ package mt
 // Genesis import (C12, C15): every class and every token of every class is stored, and the id sequences continue after
 // everything that was imported - the next class number is one more than the number of classes, the next token number
 // one more than the number of tokens of ALL classes - so that an id generated later never collides with an imported one.
-//@ func InitGenesis
+//@ func InitGenesis(ctx, k, data)
 //@   property C12, C15
 //@   requires forall j:Int :: 0 <= j && j < len(data.Collections) ==> !data.Collections[j].Denom.isnil && len(data.Collections[j].Mts) >= 0
 //@   requires forall n:Int :: 0 <= n && n <= len(data.Collections) ==> 0 <= MTC(data.Collections, n) && MTC(data.Collections, n) < 4611686018427387904
